@@ -120,7 +120,7 @@ def run(plan, order):
     rs = np.random.RandomState(plan["seed"] % 2**31)
     state = {}
     for k in keys + ([plan["other"]] if plan["other"] else []):
-        state[k["name"]] = jnp.asarray((rs.normal(size=[C] + k["shape"]) * np.asarray(scale[k["name"]])).astype(np.float32))
+        state[k["name"]] = jnp.asarray((0.3 * rs.normal(size=[C] + k["shape"]) * np.asarray(scale[k["name"]])).astype(np.float32))
     try:
         eng = gs.Engine(seeds=jax.random.split(jax.random.PRNGKey(plan["seed"]), C), model_states=state,
                         kernel_sequence=KernelSequence(kernels), epoch_configs=[EpochConfig(EpochType(e[0]), e[1], e[2], None) for e in plan["epochs"]],
@@ -167,7 +167,11 @@ def check_run(plan, samples, imm, V, counters, order):
                     V.add("mass-matrix", "shape", f"{label}: inverse mass matrix has shape {g.shape}, expected {ref.shape}")
                     continue
                 scale = np.sqrt(np.outer(np.diag(ref), np.diag(ref))) if not plan["diag"] else ref
-                if not np.all(np.abs(g - ref) <= 2e-3 * scale + 1e-6):
+                # liesel computes the (co)variance in float32: subtracting the mean of values of size |m|
+                # costs about eps32 * |m_i| |m_j| of absolute accuracy (slowly moving chains far from 0)
+                m = np.abs(H[c].mean(axis=0))
+                cancel = 1e-6 * (np.outer(m, m) if not plan["diag"] else m * m)
+                if not np.all(np.abs(g - ref) <= 2e-3 * scale + 1e-6 + cancel):
                     listed = [plan["keys"][i]["name"] for i in order]
                     d = np.diag(g) if not plan["diag"] else g
                     rd = np.diag(ref) if not plan["diag"] else ref
